@@ -321,7 +321,7 @@ theorem consistent_timeOK (s : Sequence) (h : s.checkConsistency = .ok true) :
       split at h
       · cases h
       · split at h
-        · cases h
+        · split at h <;> cases h
         · rename_i chans hch
           intro p hp
           obtain ⟨k, en⟩ := p
